@@ -158,20 +158,20 @@ def batch(prop: str, tier: str, batch_seed: int, *, workers: int | None = None, 
     by_sig: dict[str, dict] = {}
     known_hits = []
     for r in viol_runs:
-        v = r["violations"][0]
-        hit = findings.match(known, {"violation": v, "config": r["config"], "history": ""})
-        if hit is not None:          # a listed finding met again by the random search: not reported twice
-            known_hits.append(hit["id"])
+        v, hits = findings.first_unknown(known, r["violations"], r["config"])
+        known_hits += hits           # listed findings met again by the random search: not reported twice
+        if v is None:
             continue
+        r["first_unknown"] = v
         by_sig.setdefault(v["signature"], r)
     reported = []
     t_min = time.time()
     for sig, r in sorted(by_sig.items())[:MAX_REPORTED]:
         if (time.time() - t_min > tcfg["minimise_budget"] and len(reported) >= 1) or len(reported) >= MAX_MINIMISED:
             # not minimised for lack of time: still reported, from the unminimised configuration
-            rec = minimise.write_replay(prop, r["config"], r["violations"][0], minimised=False)
+            rec = minimise.write_replay(prop, r["config"], r["first_unknown"], minimised=False)
         else:
-            rec = minimise.minimise_and_write(prop, r["config"], r["violations"][0],
+            rec = minimise.minimise_and_write(prop, r["config"], r["first_unknown"],
                                               budget=max(20, tcfg["minimise_budget"] / max(1, min(len(by_sig), MAX_MINIMISED))),
                                               workers=workers)
         reported.append(rec)
